@@ -10,6 +10,9 @@ cycle of the cell data of a table:
     cell): every text cell's new key reads back its own string, keys are 1..n ascending;
   * `rows_resave`, `tiles_resave` — offsets/storage buffers and the 256-row tiles return the
     records row by row (C01).
+  * `table_resave_idempotent`, `table_resave_stable` — the layers composed end to end
+    (Model/TablePipeline.lean, C01 `table_roundtrip`): open → save → open → save → open … of a
+    whole table returns, every time, the same class / payload / ids / text at every position.
 Everything else in the statement (formulas, formatted values, bullets, merge ranges, sheet and
 table order, protobuf objects) is reached only by the whole-document dump comparison in
 harness/checks/c02.py, which is exploration and labelled so.
@@ -17,6 +20,7 @@ harness/checks/c02.py, which is exploration and labelled so.
 import NumbersModel.Props.C04
 import NumbersModel.Props.C01
 import NumbersModel.Lemmas.StringTable
+import NumbersModel.Lemmas.TablePipeline
 namespace NumbersModel.Props.C02
 open NumbersModel NumbersModel.CellRecord NumbersModel.StringTable
 
@@ -102,8 +106,81 @@ theorem rows_resave (cells : List (Option Bytes)) (hmax : cells.length ≤ Gen.M
 theorem tiles_resave {α} (rows : List α) : (RowStorage.tiles rows).flatMap (·.2) = rows :=
   C01.tiles_cover rows
 
+/-! ### the whole table, cycle after cycle (composition; Model/TablePipeline.lean) -/
+
+/-- `n` cycles of save (`recalculate_table_data`) → reopen (`Table.__init__`), each starting from
+    the cells the previous reopen left in memory (`TablePipeline.recell`). -/
+def resaveN (mr : Nat → Nat → Bool) : Nat → List (List TablePipeline.TCell) → PyM (List (List TablePipeline.TCell))
+  | 0, g => .ok g
+  | n + 1, g => do
+    let s ← TablePipeline.saveTable g
+    let l ← TablePipeline.loadTable mr s
+    resaveN mr n (l.map (·.map TablePipeline.recell))
+
+/-- **a second save/reopen cycle returns the same grid again.** Under the hypotheses of C01
+    `table_roundtrip`: the first cycle reads `g1`; saving exactly what was read (`recell`) and
+    reopening reads `g2` with, at every position, the same class, payload bytes, twelve ids and
+    text as `g1` (`coreL`: everything but the re-assigned string key and the raw flag words — the
+    `extras` byte may gain bit 0x80 once, because a text cell created by the API has no `_string_id`
+    and a reopened one has), and both equal what the original grid holds. -/
+theorem table_resave_idempotent (mr : Nat → Nat → Bool) (grid : List (List TablePipeline.TCell)) (w : Nat)
+    (hne : 1 ≤ grid.length) (hrect : TablePipeline.Rect grid w) (hw : w ≤ Gen.MAX_COL_COUNT)
+    (hrows : grid.length ≤ Gen.MAX_ROW_COUNT)
+    (hvalid : ∀ row ∈ grid, ∀ c ∈ row, TablePipeline.ValidCell c)
+    (hmr : TablePipeline.MergeAgrees mr grid) :
+    ∃ s1 g1 s2 g2, TablePipeline.saveTable grid = .ok s1 ∧ TablePipeline.loadTable mr s1 = .ok g1 ∧
+      TablePipeline.saveTable (g1.map (·.map TablePipeline.recell)) = .ok s2 ∧
+      TablePipeline.loadTable mr s2 = .ok g2 ∧
+      g2.map (·.map TablePipeline.coreL) = g1.map (·.map TablePipeline.coreL) ∧
+      g1.map (·.map TablePipeline.coreL) = grid.map (·.map (TablePipeline.coreL ∘ TablePipeline.viewT)) := by
+  have hne' : grid ≠ [] := by intro h; rw [h] at hne; simp at hne
+  obtain ⟨s1, g1, hs1, hg1, _, _, _, hall1⟩ :=
+    TablePipeline.load_save_rel mr grid w hne' hrect hw hrows hvalid hmr
+  obtain ⟨a1, a2, a3, a4, a5, a6⟩ := TablePipeline.reread_valid mr grid w hne' hrect hvalid hmr g1 hall1
+  obtain ⟨s2, g2, hs2, hg2, _, _, _, hall2⟩ :=
+    TablePipeline.load_save_rel mr _ w a1 a2 hw (by rw [a3]; exact hrows) a4 a5
+  have core_of : ∀ {gr : List (List TablePipeline.TCell)} {g : List (List TablePipeline.LCell)},
+      TablePipeline.All₂ (TablePipeline.All₂ (fun cell l => ∃ k, l = TablePipeline.viewK k cell)) gr g →
+      g.map (·.map TablePipeline.coreL) = gr.map (·.map (TablePipeline.coreL ∘ TablePipeline.viewT)) := by
+    intro gr g hall
+    have h := congrArg (fun x => x.map (fun r => r.map TablePipeline.coreL)) (TablePipeline.forget_of_rel hall)
+    simpa [List.map_map, Function.comp_def, TablePipeline.coreL_forgetKey] using h
+  refine ⟨s1, g1, s2, g2, hs1, hg1, hs2, hg2, ?_, core_of hall1⟩
+  rw [core_of hall2, a6, core_of hall1]
+
+/-- **any number of cycles**: `n` save/reopen cycles never raise and leave, at every position, the
+    class / payload / ids / text the original grid holds. -/
+theorem table_resave_stable (mr : Nat → Nat → Bool) (n : Nat) : ∀ (grid : List (List TablePipeline.TCell)) (w : Nat),
+    1 ≤ grid.length → TablePipeline.Rect grid w → w ≤ Gen.MAX_COL_COUNT →
+    grid.length ≤ Gen.MAX_ROW_COUNT → (∀ row ∈ grid, ∀ c ∈ row, TablePipeline.ValidCell c) →
+    TablePipeline.MergeAgrees mr grid →
+    ∃ gn, resaveN mr n grid = .ok gn ∧
+      gn.map (·.map (TablePipeline.coreL ∘ TablePipeline.viewT))
+        = grid.map (·.map (TablePipeline.coreL ∘ TablePipeline.viewT)) := by
+  induction n with
+  | zero => intro grid w _ _ _ _ _ _; exact ⟨grid, rfl, rfl⟩
+  | succ n ih =>
+    intro grid w hne hrect hw hrows hvalid hmr
+    have hne' : grid ≠ [] := by intro h; rw [h] at hne; simp at hne
+    obtain ⟨s1, g1, hs1, hg1, _, _, _, hall1⟩ :=
+      TablePipeline.load_save_rel mr grid w hne' hrect hw hrows hvalid hmr
+    obtain ⟨a1, a2, a3, a4, a5, a6⟩ := TablePipeline.reread_valid mr grid w hne' hrect hvalid hmr g1 hall1
+    have hlen : 1 ≤ (g1.map (·.map TablePipeline.recell)).length := by rw [a3]; exact hne
+    obtain ⟨gn, hgn, heq⟩ := ih _ w hlen a2 hw (by rw [a3]; exact hrows) a4 a5
+    refine ⟨gn, ?_, by rw [heq, a6]⟩
+    simp only [resaveN, hs1, hg1, bind, Except.bind]
+    exact hgn
+
 /-! ### non-vacuity -/
 example : (internAll (init : Tbl String) ["a", "b", "a", "c"]).1 = [1, 2, 1, 3] := by decide
 example : lookupValue (internAll (init : Tbl String) ["a", "b", "a", "c"]).2.entries 3 = .ok "c" := by decide
+
+/-- two cycles on a 2 × 2 grid with a merged hole and a repeated text: computed. -/
+def demoGrid : List (List TablePipeline.TCell) :=
+  [[⟨.text, [], "x".toList, none, {}⟩, ⟨.merged, [], [], none, {}⟩],
+   [⟨.text, [], "x".toList, none, {}⟩, ⟨.date, List.replicate 8 9, [], none, { dateFmt := some 2 }⟩]]
+example : (resaveN (fun r c => r == 0 && c == 1) 2 demoGrid).map
+      (fun g => g.map (fun r => r.map (TablePipeline.coreL ∘ TablePipeline.viewT)))
+    = .ok (demoGrid.map (fun r => r.map (TablePipeline.coreL ∘ TablePipeline.viewT))) := by decide +kernel
 
 end NumbersModel.Props.C02
